@@ -47,7 +47,7 @@ add("C07", "proptest-sharded+fault-enumeration",
     "Per file the prefix/fault positions are enumerated completely (strided only in the middle of files > 4 KiB); files themselves are sampled.")
 add("C08", "proptest-sharded+thread-stress",
     "stateful property-based testing: differential fresh-vs-reused sentence over generated histories; multi-thread differential stress on a shared predictor",
-    "Generated histories of updates/predicts/fill_tags/reset_tags/filters/edits over six predictors of two models followed by the documented final segment; full observation compared with a fresh sentence. One predictor shared by 8/16 threads compared with the single-threaded run; Send+Sync asserted at compile time.",
+    "Generated histories of updates/predicts/fill_tags/reset_tags/filters/edits over six predictors of two models followed by the documented final segment; full observation compared with a fresh sentence, also after every prediction and every fill_tags inside the history (switch histories: several tag predictors on one loaded text). One predictor shared by 8/16 threads compared with the single-threaded run; Send+Sync asserted at compile time.",
     "The harness does not own the thread schedule (nothing to instrument in Predictor): a race needing a rare interleaving can be missed.")
 add("C14", "proptest-sharded",
     "property-based testing: round-trip differential original vs deserialised predictor, tied to the reference model",
@@ -81,7 +81,7 @@ add("C19", "proptest-sharded+real-CLI",
     "The tool is rebuilt from /repo into /verif/target/repo-bins by the check script; csv and zstd crates are part of the tool under test.")
 add("C20", "proptest-sharded+real-CLI",
     "property-based testing: reference output assembled from library calls vs the real predict/evaluate binaries over generated models, input streams and flag sets; metamorphic mode equivalence",
-    "Generated models (.zst) x input streams (empty lines, NUL, delimiters, half-width characters) x all 16 flag subsets x wsconst lists for predict; generated tokenized references x metrics x flags for evaluate; stdout compared with the library pipeline, exit status and panics checked.",
+    "Generated models (.zst) x input streams (empty lines, NUL, delimiters, half-width characters) x all 16 flag subsets x wsconst lists for predict; generated tokenized references (tagged and untagged) x metrics x flags for evaluate; stdout compared with the library pipeline, exit status and panics checked.",
     "Under-specified spots are accepted in all reasonable variants (see evidence assumptions). Sub-check train runs the shipped train program against the same pipeline performed through the library and compares the discrete content of the two models (weights differ in the last digits between processes because of a per-process hash seed).")
 
 add("C16", "enumeration+proptest-sharded (separate binary vcheck-tantivy)",
